@@ -188,12 +188,28 @@ class GroundedEffect:
         new_values = []
         for grounded_expression in self.grounded_numeric_effects:
             new_values.append(
-                self._update_single_numeric_expression(
-                    grounded_expression,
-                    previous_state_functions=previous_state_functions,
+                (
+                    grounded_expression.root.value,
+                    self._update_single_numeric_expression(
+                        grounded_expression,
+                        previous_state_functions=previous_state_functions,
+                    ),
                 )
             )
 
-        for new_value in new_values:
+        for assignment_type, new_value in new_values:
             # storing a copy so that the state does not share the function object with this (reusable) effect.
-            state.state_fluents[new_value.untyped_representation] = new_value.copy()
+            updated_fluent = new_value.copy()
+            fluent_name = new_value.untyped_representation
+            if (
+                assignment_type in ("increase", "decrease")
+                and fluent_name in previous_state_functions
+                and fluent_name in state.state_fluents
+                and state.state_fluents[fluent_name].value
+                != previous_state_functions[fluent_name].value
+            ):
+                # another effect of the action has already changed the fluent - additive effects accumulate.
+                change = new_value.value - previous_state_functions[fluent_name].value
+                updated_fluent.set_value(state.state_fluents[fluent_name].value + change)
+
+            state.state_fluents[fluent_name] = updated_fluent
